@@ -33,13 +33,21 @@ func classOf(f func() error) (out string) {
 		}()
 		done <- res
 	}()
+	deadline := 20 * time.Second
+	if hangsSeen >= 2 {
+		deadline = 3 * time.Second // the hang is established: the remaining cases need not wait 20 s each
+	}
 	select {
 	case r := <-done:
 		return r
-	case <-time.After(20 * time.Second):
+	case <-time.After(deadline):
+		hangsSeen++
 		return "hang"
 	}
 }
+
+// hangsSeen counts the calls of this process that did not return before the deadline.
+var hangsSeen int
 
 func init() {
 	regOp(&Op{Name: "keyops", Impl: func(a map[string]any) any {
